@@ -27,3 +27,29 @@ pub use self::resp::{
     BulkStrIndex, BulkStrSlice, BulkStrVec, IndexedResp, Resp, RespBytes, RespIndex, RespSlice,
     RespVec,
 };
+
+// Verification hooks (no behaviour change): re-export private modules for the /verif harness.
+#[cfg(undermoon_verif)]
+pub mod verif_export {
+    pub mod client {
+        pub use super::super::client::*;
+    }
+    pub mod codec {
+        pub use super::super::codec::*;
+    }
+    pub mod decoder {
+        pub use super::super::decoder::*;
+    }
+    pub mod encoder {
+        pub use super::super::encoder::*;
+    }
+    pub mod packet {
+        pub use super::super::packet::*;
+    }
+    pub mod resp {
+        pub use super::super::resp::*;
+    }
+    pub mod stateless {
+        pub use super::super::stateless::*;
+    }
+}
